@@ -75,9 +75,12 @@ def m_global(ctx, case):
             ctx.violation(key_w or "none-although-same-NL", frames=[m0, m1], rlat=[rl0, rl1], nl=[nl0, nl1], p0=case["p0"], p1=case["p1"])
         return
     ctx.hit("value_result")
-    if nl0 != nl1 or ambiguous_nl:
-        ctx.amb()  # the statement does not fix the value when the bands differ; near a transition either is fine
+    if ambiguous_nl:
+        ctx.amb()  # within 1e-9 deg of a transition either NL (hence None or a value of either band) is fine
         return
+    if nl0 != nl1:
+        # bands differ: None would have been allowed, but a returned value still has to be the newer frame's position
+        ctx.hit("value_although_bands_differ")
     lat, lon = res
     cands = []
     if te >= to:
